@@ -153,6 +153,19 @@ def run(tier):
     ck.exhaustive = True
     rej = ck.validate("Trace_GBRolling", traces, trace_cfg(), "traces", nontrivial=nontrivial, diag_cfg=trace_cfg(diag="TRUE", inv=False))
     ck.judge(rej, "Trace_GBRolling", {})
+    # long groups (beyond the 2^15 / 2^16 ranges of narrow row counters): the definition evaluated directly on the logged
+    # sequences (Trace_GBRolling long mode), one TLC run per trace
+    sizes = [32770, 33000] if tier == "quick" else [32770, 33000, 65540, 70000]
+    longs = []
+    for j, n in enumerate(sizes):
+        for op in (["shift", "diff"] if tier == "quick" else ["shift", "diff", "sum", "max", "min"]):
+            W = 1 + (j + len(longs)) % 3
+            longs.append(dict(op=op, W=W, minp=W, keys=[1] * n, vals=[1 + (r * 7 % 5) for r in range(n)], emb=("f64" if len(longs) % 2 else "i64"),
+                              level=("api" if len(longs) % 3 else "numba"), kenc="f64", vcont="np", long=1))
+    tl = ck.drive(rowwise.run_roll, longs, warm_cases=[], procs=4)
+    for k, t in enumerate(tl):
+        rej = ck.validate("Trace_GBRolling", [t], trace_cfg(), f"long{k}", nontrivial=lambda t: True, key=lambda t: json.dumps([t["op"], t["W"], len(t["keys"]), t["emb"]]))
+        ck.judge(rej, None, {})
     ck.assumptions += ["embeddings / projection trusted; integer inputs are rolled through float64 by design (exactness is claimed for float and temporal inputs only)",
                        "outputs at null-key and unselected rows are not judged by C09"]
     return ck.finish()
